@@ -69,12 +69,23 @@ def seed_models():
     return [('start', m), ('small', small)]
 
 
+def props_model():
+    """parsed with allow_properties=True (its own grammar elements: table_with_properties, the property-aware column settings)"""
+    t = A.table('t', [A.col('id', pk=True, properties=[['ck', 'cv']]), A.col('v', 'varchar(20)', default=['str', 'x'], note='n', properties=[['c 2', 'w']])],
+                note='tn', header_color='#fff', alias='tt', indexes=[A.index(['id'], type_='hash', name='ix')], properties=[['tk', 'tv'], ['t 2', 'x']])
+    u = A.table('u', [A.col('id'), A.col('t_id')], schema='s', properties=[['uk', 'uv']])
+    return A.model(tables=[t, u], refs=[A.ref('>', [['s', 'u', 't_id']], [['public', 't', 'id']], name='r', on_delete='cascade')],
+                   enums=[A.enum('e', ['a', 'b'])], allow_properties=True)
+
+
 def seeds():
     out = []
     for name, m in seed_models():
         out.append((name + '/plain', m, writer.Style()))
         out.append((name + '/airy-block', m, writer.Style(airy=True, ref_form='block', multiline='trail', note_form='block', quote='quoted', string='d', case='upper')))
     out.append(('small/lead-settings', seed_models()[1][1], writer.Style(multiline='lead', note_form='settings', idx_pos='first', note_pos='first', string='t')))
+    out.append(('props/plain', props_model(), writer.Style()))
+    out.append(('props/trail-quoted', props_model(), writer.Style(multiline='trail', quote='quoted', note_form='block')))
     return out
 
 
@@ -86,17 +97,28 @@ def text_of(toks):
     return ''.join(t.text for t in toks)
 
 
-def parse_outcome(text):
+def parse_outcome(text, on=False):
     from pydbml import PyDBML
     try:
-        PyDBML(text)
+        PyDBML(text, allow_properties=on)
         return 'returned', None
     except BaseException as e:
         return type(e).__name__, e
 
 
+def legit_property(text):
+    """with the option on, an unknown `key: 'value'` entry in a *column's* settings is a property, not a fault: accepted only if it
+    was stored as one"""
+    from pydbml import PyDBML
+    db = PyDBML(text, allow_properties=True)
+    return sum(1 for t in db.tables for c in t.columns if c.properties.get('bogus') == 'x') == 1
+
+
 def check(p, fault, label, text, seedname):
-    got, exc = parse_outcome(text)
+    got, exc = parse_outcome(text, seedname.startswith('props/'))
+    if got == 'returned' and seedname.startswith('props/') and fault == 'badword' and "bogus: 'x'" in label and legit_property(text):
+        p['outcomes']['badword/stored-as-column-property(option on)'] += 1
+        return
     p['evaluations'] += 1
     p['nontrivial'].add(digest(text))
     p['outcomes'][f'{fault}/{got}'] += 1
@@ -323,7 +345,7 @@ def work(unit):
     p = new_part()
     name, m, st = seeds()[si]
     toks = real_tokens(m, st)
-    got, exc = parse_outcome(text_of(toks))
+    got, exc = parse_outcome(text_of(toks), name.startswith('props/'))
     if got != 'returned':
         p['violations'].append(violation(PID, 'control-rejected', {'seed': name, 'text': text_of(toks)}, observed=got, detail=f'seed {name} does not parse: {got}: {exc}'))
         return p
